@@ -785,8 +785,10 @@ where
 
     #[inline]
     pub(crate) fn read_expect_equals(&mut self) -> Result<Token, ReaderError> {
-        match self.buf.window().first() {
-            Some(b'=') => {
+        // only a '=' that is known not to start '==' can be taken without
+        // going through the tokenizer
+        match self.buf.window() {
+            [b'=', next, ..] if *next != b'=' => {
                 self.buf.advance(1);
                 Ok(Token::Operator(Operator::Equal))
             }
